@@ -128,6 +128,16 @@ func (e *Explorer) Check(r *Result) []string {
 	msgs = append(msgs, r.Failures...)
 	if e.Sc.Classify != nil {
 		msgs = append(msgs, e.Sc.Classify(r)...)
+	} else if r.Status != StatusOK {
+		// a scenario that does not expect it treats process death, hang and livelock as violations
+		m := "execution ended with status " + r.Status.String()
+		if r.Crash != nil {
+			m += ": panic in " + r.Crash.Thread + ": " + r.Crash.Value
+		}
+		if len(r.Blocked) > 0 {
+			m += "; blocked: " + strings.Join(r.Blocked, " | ")
+		}
+		msgs = append(msgs, m)
 	}
 	return msgs
 }
